@@ -1,11 +1,12 @@
 use crate::core::driver::Prop;
 
+pub mod c01;
 pub mod c09;
 pub mod c10;
 pub mod c11;
 
 pub fn all() -> Vec<Box<dyn Prop>> {
-    vec![Box::new(c09::C09), Box::new(c10::C10), Box::new(c11::C11)]
+    vec![Box::new(c01::C01), Box::new(c09::C09), Box::new(c10::C10), Box::new(c11::C11)]
 }
 
 /// Developer utilities (`verif dbg <what> ...`).
